@@ -16,7 +16,8 @@ Record file_facts := {
   ff_casts : list (string * string);      (* `expr as ty` *)
   ff_statics : list string;
   ff_cfg_keys : list string;
-  ff_stdpaths : list string;              (* every path rooted in std / core / alloc, incl. inside macro bodies and arguments *)
+  ff_stdpaths : list string;
+  ff_trait_impls : list (string * string);   (* (last segment of the trait path, self type) of every trait impl written out in the file *)              (* every path rooted in std / core / alloc, incl. inside macro bodies and arguments *)
   ff_macro_defs : list (string * list string)
 }.
 
